@@ -1636,65 +1636,58 @@ Qed.
 (* ------------------------------------------------------------------ *)
 (* L. assert(fd > STDERR_FILENO) in uv__close                            *)
 (* ------------------------------------------------------------------ *)
-Definition stdio_open (t : tbl) : Prop := get t 0 <> None /\ get t 1 <> None /\ get t 2 <> None.
-
-Lemma free_above_stdio t d : stdio_open t -> get t d = None -> 3 <= d.
+(* no assertion of uv__close can trip inside uv_spawn, whatever is closed in
+   the parent and whatever the stdio list is *)
+Theorem spawn_no_trip sp wo : r_trip (fst (uv_spawn sp wo)) = false.
 Proof.
-  intros (H0 & H1 & H2) N.
-  destruct d as [|[|[|d]]]; try congruence. lia.
-Qed.
-
-Lemma streams_trip_false : forall cs ps,
-  (forall i a b, nth_error cs i = Some SPipe -> nth_error ps i = Some (Some a, Some b) -> 3 <= b) ->
-  streams_trip cs ps = false.
-Proof.
-  induction cs as [|c r IH]; intros ps H; [reflexivity|].
-  destruct ps as [|[a b] pr]; [reflexivity|].
-  assert (Hr : streams_trip r pr = false).
-  { apply IH. intros i a' b' Hc Hp. apply (H (S i) a' b'); auto. }
-  cbn [streams_trip]. destruct c; auto. destruct a as [pa|]; auto. destruct b as [n|]; auto.
-  rewrite Hr, orb_false_r. apply Nat.leb_gt.
-  specialize (H 0 pa n eq_refl eq_refl). lia.
-Qed.
-
-(* with 0, 1 and 2 open in the parent no uv__close() of uv_spawn sees a
-   descriptor <= 2 *)
-Theorem spawn_no_trip sp wo :
-  no_bad (s_stdio sp) -> s_sp_fail sp = None -> stdio_open (s_tbl sp) ->
-  r_trip (fst (uv_spawn sp wo)) = false.
-Proof.
-  intros Hb Hsp Hs. unfold uv_spawn. rewrite Hsp.
-  destruct (init_stdio_spec (s_stdio sp) (s_tbl sp) (s_fresh sp) 0 Hb) as (t1 & ps & E & L & X & HS).
-  rewrite E.
-  destruct (spawn_child t1 (pad3 3 (map snd ps)) (s_fresh sp + 2 * npipes (s_stdio sp))
-              (s_pipe_fail sp) (s_fork_fail sp) (eff_exec_err sp) wo)
+  unfold uv_spawn.
+  destruct (init_stdio (s_stdio sp) (s_tbl sp) (s_fresh sp) 0 (s_sp_fail sp)) as [[[t1 ps] f1] err].
+  destruct err; [reflexivity|].
+  destruct (spawn_child t1 (pad3 3 (map snd ps)) f1 (s_pipe_fail sp) (s_fork_fail sp) (eff_exec_err sp) wo)
     as [[[[[eno t2] c] wrote] reaped] wo2].
   destruct (open_streams (s_stdio sp) ps 0 t2) as [t3 streams].
-  cbn [fst r_trip].
-  rewrite streams_trip_false, orb_false_r.
-  - unfold error_wfd.
-    destruct (alloc t1 0 (s_fresh sp + 2 * npipes (s_stdio sp)) true) as [ta rfd] eqn:Aa.
-    cbn [fst].
-    destruct (alloc ta 0 (S (s_fresh sp + 2 * npipes (s_stdio sp))) true) as [tb wfd] eqn:Ab.
-    cbn [snd].
-    pose proof (ext_alloc 0 _ _ _ _ Aa) as Xa.
-    apply alloc_spec in Ab as (_ & Nb & _).
-    assert (3 <= wfd).
-    { apply (free_above_stdio (s_tbl sp)); auto.
-      eapply ext_none; [exact X|]. eapply ext_none; [exact Xa|exact Nb]. }
-    destruct (Nat.leb_spec wfd 2); [lia|]. apply andb_false_r.
-  - intros i a b Hc Hp. pose proof (HS i) as Si. rewrite Hc in Si.
-    destruct Si as (a2 & b2 & T1 & _ & _ & _ & T5). rewrite Hp in T1. inversion T1; subst.
-    apply (free_above_stdio (s_tbl sp)); auto.
+  reflexivity.
 Qed.
 
-(* without that: 0 and 1 closed, nothing to redirect - the error pipe is 0/1
-   and uv__close(signal_pipe[1]) is uv__close(1) *)
+(* History: before commit 298b4fa the write end of the error pipe and the
+   child's end of every UV_CREATE_PIPE pair were closed with the checking
+   uv__close(); this is where an assert-enabled build aborted. *)
+Definition error_wfd (t : tbl) (fresh : nat) : nat :=
+  snd (alloc (fst (alloc t 0 fresh true)) 0 (S fresh) true).
+
+Fixpoint streams_trip (cs : list stdio) (ps : pipes) : bool :=
+  match cs, ps with
+  | c :: cr, (a, b) :: pr =>
+      match c, a, b with
+      | SPipe, Some _, Some n => (n <=? 2)%nat || streams_trip cr pr
+      | _, _, _ => streams_trip cr pr
+      end
+  | _, _ => false
+  end.
+
+Definition trip_unfixed (s : spec) : bool :=
+  let '(t1, ps, fresh1, err) := init_stdio (s_stdio s) (s_tbl s) (s_fresh s) 0 (s_sp_fail s) in
+  match err with
+  | Some _ => false
+  | None => (negb (s_pipe_fail s) && (error_wfd t1 fresh1 <=? 2)%nat) || streams_trip (s_stdio s) ps
+  end.
+
+(* 0 and 1 closed, nothing to redirect: the error pipe is 0/1 *)
 Definition closed_stdio_spec : spec :=
   mkSpec [None; None; Some (mkE 3 false)] [] true 7 10 None false false None []
          (mkC 0 0 0) (mkC 0 0 0) None None.
+(* 0, 1, 2 closed, a UV_CREATE_PIPE slot and an inherited descriptor 5: the pair is 0/1 *)
+Definition closed_stdio_pipe_spec : spec :=
+  mkSpec [None; None; None; None; None; Some (mkE 3 false)] [SPipe; SFd 5] true 7 10 None false false
+         None [] (mkC 0 0 0) (mkC 0 0 0) None None.
 
-Lemma closed_stdio_trips :
-  r_trip (fst (uv_spawn closed_stdio_spec [])) = true /\
-  r_ret (fst (uv_spawn closed_stdio_spec [])) = 0%Z.
-Proof. vm_compute. split; reflexivity. Qed.
+Lemma closed_stdio_now :
+  trip_unfixed closed_stdio_spec = true /\
+  trip_unfixed closed_stdio_pipe_spec = true /\
+  r_trip (fst (uv_spawn closed_stdio_spec [])) = false /\
+  r_ret (fst (uv_spawn closed_stdio_spec [])) = 0%Z /\
+  r_active (fst (uv_spawn closed_stdio_spec [])) = true /\
+  r_trip (fst (uv_spawn closed_stdio_pipe_spec [])) = false /\
+  r_ret (fst (uv_spawn closed_stdio_pipe_spec [])) = 0%Z /\
+  r_streams (fst (uv_spawn closed_stdio_pipe_spec [])) = [(0, 0)].
+Proof. vm_compute. repeat split; reflexivity. Qed.
